@@ -149,6 +149,32 @@ def valid_utf8(b):
         return False
 
 
+_native_state = {}
+
+
+def path_state(name):
+    return _native_state.setdefault(name, [])
+
+
+def same_keys(a, b):
+    return set(a) == set(b)
+
+
+def keys_snapshot(a):
+    return set(a)
+
+
+def assume(c):
+    return None
+
+
+def uf_bool(name, *args):
+    raise NotImplementedError(f"uninterpreted symbol {name} has no native value")
+
+
+uf_int = uf_bytes = uf_str = uf_real = uf_bool
+
+
 def clone_class(cls):
     """a fresh copy of a class definition (native counterpart of the interpreter's clone_class)"""
     return type(cls.__name__, cls.__bases__, dict(cls.__dict__))
